@@ -183,8 +183,68 @@ def _call_optimize(g, kw):
     return g.optimize(**kw)
 
 
+class DebugLogging:
+    """The library's loggers switched to DEBUG with a handler attached (an application debugging its SLAM pipeline), or logging disabled process-wide."""
+
+    def __init__(self, mode="debug"):
+        self.mode = mode
+
+    def __enter__(self):
+        import logging
+
+        if self.mode == "disabled":
+            self.prev_disable = logging.root.manager.disable
+            logging.disable(logging.CRITICAL)
+            return self
+        self.lg = logging.getLogger("graphslam")
+        self.h = logging.NullHandler()
+        self.h.setLevel(logging.DEBUG)
+        self.old = (self.lg.level, self.lg.propagate)
+        self.lg.addHandler(self.h)
+        self.lg.setLevel(logging.DEBUG)
+        self.lg.propagate = False
+        self.kids = []
+        for name, obj in list(logging.root.manager.loggerDict.items()):
+            if name.startswith("graphslam.") and isinstance(obj, logging.Logger):
+                self.kids.append((obj, obj.level, obj.propagate))
+                obj.setLevel(logging.DEBUG)
+                obj.propagate = False
+                obj.addHandler(self.h)
+        return self
+
+    def __exit__(self, *a):
+        import logging
+
+        if self.mode == "disabled":
+            logging.disable(self.prev_disable)
+            return False
+        self.lg.setLevel(self.old[0])
+        self.lg.propagate = self.old[1]
+        self.lg.removeHandler(self.h)
+        for obj, lvl, prop in self.kids:
+            obj.setLevel(lvl)
+            obj.propagate = prop
+            obj.removeHandler(self.h)
+        return False
+
+
+ENV_COUNTS = {"default": 0, "debug": 0, "disabled": 0}
+
+
 def quiet_optimize(g, **kw):
+    """optimize() with its output captured.  Process-wide logging state is rotated deterministically (a function of the call's own arguments): most calls run
+    with the default configuration, some with the library's loggers at DEBUG, some with logging disabled - the results must not depend on it."""
     kw.setdefault("verbose", False)
+    sel = (len(getattr(g, "_vertices", ())) * 7 + len(getattr(g, "_edges", ())) * 3 + int(kw.get("max_iter", 20) or 0)) % 6
+    mode = "debug" if sel == 1 else "disabled" if sel == 4 else "default"
+    ENV_COUNTS[mode] += 1
+    if mode != "default":
+        with DebugLogging(mode):
+            return _quiet_optimize(g, kw)
+    return _quiet_optimize(g, kw)
+
+
+def _quiet_optimize(g, kw):
     with warnings.catch_warnings():
         warnings.simplefilter("ignore")
         with np.errstate(all="ignore"):
